@@ -344,7 +344,9 @@ def _nd(case, R, rng):
                 R.violation("nd-theta-raises-deep-threshold", f"{label}: _theta({lv}) raises {type(exc).__name__}: {exc}", wit)
                 break
             R.hit("deep_threshold_clayton_checks")
-            if not (abs(got_t - want_t) <= 1e-7 * want_t + 100 * oracle.max_err + 1e-18):
+            # (closed-form tail masses of compound-Poisson margins: absolute rounding ~1e-16 x the total intensity of the margin)
+            floor_t = 4e-16 * sum(float(ms["params"]["intensity"]) for ms in cm["margins"] if ms["family"] in ("HEM", "MERTON"))
+            if not (abs(got_t - want_t) <= 1e-7 * want_t + 100 * oracle.max_err + 1e-18 + floor_t):
                 R.violation("nd-theta-vs-clayton-formula-deep-thresholds" if fac > 1 else "nd-theta-vs-clayton-formula", f"{label}: thresholds {lv} (single-name intensities "
                             f"{u1!r}, {u2!r}): closed-form first-to-default intensity {got_t!r}, |U_1| + |U_2| - eta (|U_1|^-theta + |U_2|^-theta)^(-1/theta) = {want_t!r}", wit)
                 break
